@@ -189,10 +189,13 @@ def ref_clip_evaluation(na, npred, same_clip, matches, score):
     return in_unit(score)
 
 
-def judge_clip_evaluation(ctx, seed, na, npred, same_clip, matches, score):
+def judge_clip_evaluation(ctx, seed, na, npred, same_clip, matches, score, id_overlap=0):
     from soundevent import data
 
     spec = {"kind": "clip_evaluation", "seed": seed, "n_ann": na, "n_pred": npred, "same_clip": same_clip, "matches": matches, "score": score if score == score else "nan"}
+    if id_overlap:
+        spec["id_overlap"] = id_overlap
+        ctx.mon("id_spaces_overlap")
     want = ref_clip_evaluation(na, npred, same_clip, matches, score)
 
     def parts():
@@ -201,6 +204,10 @@ def judge_clip_evaluation(ctx, seed, na, npred, same_clip, matches, score):
         clip2 = clip if same_clip else g.clip(recording=clip.recording)
         anns = [g.se_annotation(clip) for _ in range(na)]
         preds = [g.se_prediction(clip2) for _ in range(npred)]
+        # annotations and predictions are two identifier spaces (two AOEF tables): the first ``id_overlap`` predictions
+        # carry the uuid of an annotation of the same clip (predictions derived from annotated events)
+        for i in range(min(id_overlap, na, npred)):
+            preds[i] = preds[i].model_copy(update={"uuid": anns[i].uuid})
         fa, fp = g.se_annotation(clip), g.se_prediction(clip)
         ca = data.ClipAnnotation(uuid=g.uid(), clip=clip, sound_events=anns, created_on=g.dt())
         cp = data.ClipPrediction(uuid=g.uid(), clip=clip2, sound_events=preds)
@@ -539,6 +546,11 @@ def run(ctx):
                              {"kind": "clip_evaluation", "seed": seed, "n_ann": na, "n_pred": npred, "same_clip": same_clip, "matches": m, "score": score},
                              nontrivial=(na + npred) > 0)
                     judge_clip_evaluation(ctx, seed, na, npred, same_clip, m, score)
+                    if na and npred and (na + npred + len(pattern)) % 2 == 0:
+                        k = rng.choice([1, min(na, npred)])
+                        ctx.case(("clip_evaluation", na, npred, pattern, "same" if same_clip else "other_clip", "shared_ids"),
+                                 {"kind": "clip_evaluation", "seed": seed, "n_ann": na, "n_pred": npred, "same_clip": same_clip, "matches": m, "score": score, "id_overlap": k})
+                        judge_clip_evaluation(ctx, seed, na, npred, same_clip, m, score, id_overlap=k)
     # scores
     for cls_name, field in [("PredictedTag", "score"), ("SoundEventPrediction", "score"), ("SequencePrediction", "score"), ("Match", "score"),
                             ("Match", "affinity"), ("ClipEvaluation", "score")]:
@@ -582,7 +594,7 @@ def replay(ctx, w):
     k = s["kind"]
     if k == "clip_evaluation":
         sc = float("nan") if s["score"] == "nan" else s["score"]
-        judge_clip_evaluation(ctx, s["seed"], s["n_ann"], s["n_pred"], s["same_clip"], s["matches"], sc)
+        judge_clip_evaluation(ctx, s["seed"], s["n_ann"], s["n_pred"], s["same_clip"], s["matches"], sc, id_overlap=s.get("id_overlap", 0))
     elif k == "clip":
         judge_clip(ctx, s["start"], s["end"], s["as_strings"])
     elif k == "project":
